@@ -1,6 +1,7 @@
 /- Driver ops for C15: g-estimation of structural nested mean models (exact `Rat` carrier). -/
 import Driver.Common
 import ZepidVerif.Model.Snm
+import ZepidVerif.Gen.Snm
 namespace ZVD
 open ZV ZV.Snm
 
@@ -18,32 +19,82 @@ def mkSRows (p : Nat) (a y pi w v : List Rat) : Except String (List (SRow Rat)) 
     | _, _, _, _, _ => []
   pure (go a y pi w vs)
 
-def readSRows (args : Args) : Except String (Nat × List (SRow Rat)) := do
+/-- one analysed row as `GEstimationSNM.fit` sees it: the model row (whose `w` is the user's weight column, 1 when
+    there is none) and the missing-outcome weight `ipmw` (1 when no missing model was fitted) -/
+abbrev GRow := SRow Rat × Rat
+
+structure SnmIn where
+  p : Nat
+  hasIpmw : Bool
+  hasWeight : Bool
+  g : List GRow
+  /-- the model's rows: `w` = the product of the weights in use -/
+  rows : List (SRow Rat)
+
+def readSnm (args : Args) : Except String SnmIn := do
   let p ← need args "p" parseNat
-  let rows ← mkSRows p (← rts args "a") (← rts args "y") (← rts args "pi") (← rts args "w") (← rts args "v")
-  pure (p, rows)
+  let hasIpmw ← need args "hasipmw" parseBool
+  let hasWeight ← need args "hasw" parseBool
+  let uw ← rts args "uw"
+  let ipmw ← rts args "ipmw"
+  let urows ← mkSRows p (← rts args "a") (← rts args "y") (← rts args "pi") uw (← rts args "v")
+  if ipmw.length ≠ urows.length then throw "bad-arg:lengths"
+  let g := urows.zip ipmw
+  let rows := g.map fun (r, m) =>
+    { r with w := (if hasIpmw then m else 1) * (if hasWeight then r.w else 1) }
+  pure ⟨p, hasIpmw, hasWeight, g, rows⟩
 
-/-- closed-form psi (Cramer) and the determinant; `err singular` = LinAlgError -/
+/-- the SNM design for treatment / treatment-covariate product terms (what patsy builds): value bound to the
+    exposure's name times the modifier values of the row -/
+def dmG (x : Rat) (r : GRow) (c : Nat) : Rat := x * nth r.1.v c
+
+/-- closed-form psi through the code regenerated from `GEstimationSNM.fit` / `_closed_form_solver_`
+    (`Gen.snm_fit_closed`; Cramer's rule stands for `np.linalg.solve`) and the determinant of the generated `lhm`;
+    `hand` = the hand-written model's `closedForm` (equal by `Props/C15_Gen.snm_fit_closed_cramer`);
+    `err singular` = LinAlgError -/
 def opSnmClosed (args : Args) : Except String String := do
-  let (p, rows) ← readSRows args
+  let i ← readSnm args
+  let p := i.p
   if p = 0 || p > 3 then throw "unsupported-p"
-  match closedForm rows p with
-  | some psi => pure s!"ok psi={showList showRat psi} det={showRat (detLhm rows p)}"
-  | none => pure "err singular"
+  let (psi, dt) := Gen.snm_fit_closed (fun S b => (cramer S b p, detP S p)) dmG i.hasIpmw i.hasWeight
+    (fun r => r.1.a) (fun r => r.1.y) (fun r => r.1.w) (fun r => r.2) (fun r => r.1.pi) i.g
+  let hand := match closedForm i.rows p with
+    | some h => showList showRat h
+    | none => "singular"
+  match psi with
+  | some psi => pure s!"ok psi={showList showRat psi} det={showRat dt} hand={hand}"
+  | none => pure s!"err singular hand={hand}"
 
-/-- the estimating functions `E_j(psi)`, j < p, and `rha_j - (lhm psi)_j`, at a given psi -/
+/-- at a given psi: the model's estimating functions `E_j(psi)` (`e`), `rha_j - (lhm psi)_j` with the regenerated
+    `lhm`, `rha` of `_closed_form_solver_` under the weight column chosen by the regenerated `fit` (`lin`), and the
+    estimating functions evaluated with the regenerated `H(psi)` of the search solver (`eg`) -/
 def opSnmEstEq (args : Args) : Except String String := do
-  let (p, rows) ← readSRows args
+  let i ← readSnm args
+  let p := i.p
   let psi ← rts args "psi"
   if psi.length ≠ p then throw "bad-arg:psi"
-  let e := (List.range p).map (estEq rows p psi)
-  let l := (List.range p).map (fun j => rha rows j - lhmApply rows p psi j)
-  pure s!"ok e={showList showRat e} lin={showList showRat l}"
+  let e := (List.range p).map (estEq i.rows p psi)
+  let wc := Gen.snm_fit_weight_col i.hasIpmw i.hasWeight (fun r : GRow => r.1.w) (fun r => r.2)
+  let sm : GRow → Nat → Rat := fun r c => dmG r.1.a r c
+  let ym : GRow → Nat → Rat := fun r c => dmG r.1.y r c
+  let L := Gen.snm_closed_lhm (fun r : GRow => r.1.a) (fun r => r.1.pi) sm ym wc i.g
+  let b := Gen.snm_closed_rha (fun r : GRow => r.1.a) (fun r => r.1.pi) sm ym wc i.g
+  let l := (List.range p).map fun j => b j - sumBy (fun k => L j k * nth psi k) (List.range p)
+  let h := Gen.snm_search_hpsi p (nth psi) (fun r : SRow Rat => r.y) (fun r c => snmCol r c)
+  let eg := (List.range p).map fun j => sumBy (fun r => dW r * nth r.v j * h r) i.rows
+  pure s!"ok e={showList showRat e} lin={showList showRat l} eg={showList showRat eg}"
+
+/-- the search solver's objective, regenerated from `_grid_search_`: `sum_j |alpha_j - shift_j|` -/
+def opSnmObjective (args : Args) : Except String String := do
+  let alpha ← rts args "alpha"
+  let shift ← rts args "shift"
+  if alpha.length ≠ shift.length then throw "bad-arg:lengths"
+  pure s!"ok obj={showRat (Gen.snm_search_objective alpha.length (nth alpha) (nth shift))}"
 
 /-- stratified closed form for the one-parameter model: rows grouped by the stratum ids `s`
     (in order of first appearance); the stratum's `p_s` is the fitted value of its first row -/
 def opSnmStrat (args : Args) : Except String String := do
-  let (_, rows) ← readSRows args
+  let rows := (← readSnm args).rows
   let s ← nats args "s"
   if s.length ≠ rows.length then throw "bad-arg:s"
   let ids := s.foldl (fun acc i => if acc.contains i then acc else acc ++ [i]) []
@@ -56,6 +107,7 @@ def opSnmStrat (args : Args) : Except String String := do
   if !arms then pure "err emptyArm" else
   pure s!"ok psi={showRat (stratifiedPsi strata)} k={strata.length} fit={showList showRat fitres}"
 
-def opsC15 : OpTable := [("snm_closed", opSnmClosed), ("snm_esteq", opSnmEstEq), ("snm_strat", opSnmStrat)]
+def opsC15 : OpTable := [("snm_closed", opSnmClosed), ("snm_esteq", opSnmEstEq), ("snm_strat", opSnmStrat),
+  ("snm_objective", opSnmObjective)]
 
 end ZVD
